@@ -100,7 +100,7 @@ Theorem check_timestamp_bad_cache fr st c rest :
 Proof.
   intros Hs Hc Ht. unfold OP_CHECK_TIMESTAMP, get, act, sert. cbn [bind interp step]. rewrite Hs.
   rewrite (nonempty_blen c Hc). cbn [bind interp step st_cache with_stack].
-  unfold ts_key in Ht. destruct (cache_get (st_cache st) (KStr (str "timestamp"))) as [[[b|b|z|b|b|]|l]|] eqn:E;
+  unfold ts_key in Ht. destruct (cache_get (st_cache st) (KStr (str "timestamp"))) as [[[b|b|z|b|b| |b]|l]|] eqn:E;
     try reflexivity. exfalso. eapply (Ht z). reflexivity.
 Qed.
 
